@@ -11,10 +11,8 @@
 (* GNext, in the six modules Pool_IndProof_{Conn,RunNtf,RunUpd,WSub,WWait,     *)
 (* WUnsub} (tlapm checks each of them in a run of its own; this module uses    *)
 (* their lemmas); each lemma proves the 4 + 16 named pieces of FT /\ IndInv    *)
-(* separately (the text of the routine steps was generated by a script; the    *)
-(* sequence-manipulating steps are written out).  FT is the typing that        *)
-(* Apalache gets from its annotations (Pool_IndDefs.tla).                      *)
-(* Inf (= 10^9) is kept opaque behind lemma InfNat and                         *)
+(* separately.  FT is the typing that Apalache gets from its annotations       *)
+(* (Pool_IndDefs.tla).  Inf (= 10^9) is kept opaque behind lemma InfNat and    *)
 (* every step names the SMT back end: an obligation that expands Inf and falls *)
 (* through to Zenon crashes tlapm (numeral printed in unary, stack overflow).  *)
 EXTENDS Pool_IndProof_Conn, Pool_IndProof_RunNtf, Pool_IndProof_RunUpd, Pool_IndProof_WSub, Pool_IndProof_WWait, Pool_IndProof_WUnsub, Pool_OpenProof
